@@ -37,11 +37,12 @@ Layers (DESIGN.md section 3 / 5-C11):
      list anonymizers in ascending / descending / shuffled order, through two
      different overlapping lists and through FileAnonymizer - every answer must
      be the single-number anonymizer's (asMap[salt][n]).
-  8. command line: netconan.netconan.main in a fresh interpreter, -n LIST and a
-     configuration file as-numbers=LIST, every block end point (0 included)
-     listed alone / with another number / after it, on a small file with the
-     number standalone and embedded - judged against single-number library
-     FileAnonymizers with the same salt.
+  8. entry points: FileAnonymizer and netconan.netconan.main (fresh interpreter;
+     -n LIST, configuration file as-numbers=LIST, listed numbers also given as
+     reserved words), every block end point and its neighbours (0, 1, 2, ...)
+     listed alone / before / after another number, on a small file with the
+     number standalone and embedded - judged against an AsNumberAnonymizer built
+     for the number alone with the same salt.
 Every recorded call is an event judged by TLC against the R part of
 spec/AsNum.tla via spec/AsNumTrace.tla; nothing is decided in Python.
 """
@@ -413,9 +414,9 @@ def unlisted(r, L):
             return u
 
 
-def line_cases(r, n, L, full_ctx):
+def line_cases(r, n, L, full_ctx, beyond=False):
     """(label, text) for one listed number n under list L.  No line contains
-    digit '.' digit or a non-ASCII numeric character (don't-care regions)."""
+    a non-ASCII numeric character (don't-care region)."""
     out = []
 
     def ctx(ln, lc, rn, rc):
@@ -442,6 +443,16 @@ def line_cases(r, n, L, full_ctx):
     for kind, run in emb:
         for wn, wl, wr in r.sample(WRAPS, 3):
             out.append(("form=embedded kind=%s wrap=%s" % (kind, wn), wl + run + wr))
+    if beyond:
+        # a digit BEYOND the punctuation on either side: d p N, N p d, d p N p d (1.65001, 65001.1, 7:65001/9)
+        for pn, pc in LEFT:
+            if pn in ("bol", "lower", "upper", "nonascii-letter", "cjk"):
+                continue
+            d1, d2 = r.choice("123456789"), str(r.randrange(1, 300))
+            out.append(("form=digit-beyond-punct punct=%s shape=dpN" % pn, "as " + d2 + pc + n + " x\n"))
+            out.append(("form=digit-beyond-punct punct=%s shape=Npd" % pn, n + pc + d1 + "\n"))
+            out.append(("form=digit-beyond-punct punct=%s shape=dpNpd" % pn, "x " + d1 + pc + n + pc + d2))
+        out.append(("form=digit-beyond-punct punct=dot shape=dotted-quad-like", "network 10." + n + ".0.0 area 1\n"))
     for sn, sep in SEPS:
         m = r.choice(L)
         out.append(("form=repeat sep=%s" % sn, "x " + n + sep + n + sep + m + " y\n"))
@@ -477,7 +488,7 @@ def gen_lines(r, thorough):
             cases = []
             for ni, n in enumerate(targets):
                 full = thorough and ni == 0 and shape in ("single-b0", "prefix-chain short-first")
-                cases += line_cases(r, n, L, full)
+                cases += line_cases(r, n, L, full, beyond=(ni == 0 or thorough))
             for c0 in range(0, len(cases), 60):
                 t = T("lines", shape=shape, kind=kind)
                 t.new(1, "class", salt, lst, "list=%s" % shape)
@@ -666,31 +677,41 @@ CLI_VALUES = [0, 1, 64511, 64512, 65534, 65535, 65536, 4199999999, 4200000000, 4
 
 
 def gen_cli(r, thorough):
-    """The command-line entry point (the list arrives as ONE comma separated string and is split by main):
-    every block end point listed alone, before and after another number, through -n and through a
-    configuration file; the replacements must be those of single-number library FileAnonymizers."""
+    """The FILE and COMMAND-LINE entry points (FileAnonymizer; main(), where the list arrives as ONE comma
+    separated string): every block end point and its neighbours (0, 1, 2, 64510 ... 4294967295) listed
+    alone, before and after another number, through -n, through a configuration file, and with the listed
+    numbers given as user reserved words too (reserved words protect words and secrets, not AS numbers).
+    Reference: an AsNumberAnonymizer built for the number alone with the same salt - in this family it
+    shares the entry points' salt name space (the salt given to FileAnonymizer / -s is the salt in use)."""
     traces = []
     salts = [SALTS[1]] + ([SALTS[2], ("with-comma-and-space", "salt, with comma")] if thorough else [])
     for slabel, salt in salts:
-        for v in CLI_VALUES:
+        for v in boundary_numbers():
             n = str(v)
             partner = "65001"
             text = ("router bgp {n}\n neighbor peer remote-as {n}\nas{n}_ ({n}) x{n}: {n}9 9{n} 7{n}7\n{n}\n"
                     " bgp confederation peers {p} {n}\nvlan 7{p}\n{n}").format(n=n, p=partner)
-            variants = [("alone", "cli", [n]), ("before-another", "cli", [n, partner]), ("after-another", "cli", [partner, n]),
-                        ("alone", "clicfg", [n]), ("before-another", "clicfg", [n, partner])]
-            if not thorough:
-                variants = variants[:3] + (variants[3:] if v in (0, 64512, 4294967295) else [])
+            endpoint = v in CLI_VALUES
+            variants = [("alone", "file", [n]), ("before-another", "file", [n, partner]),
+                        ("alone", "cli", [n]), ("before-another", "cli", [n, partner])]
+            if thorough or endpoint:
+                variants.append(("after-another", "cli", [partner, n]))
+            if thorough or v in (0, 2, 64512, 4294967295):
+                variants += [("alone", "clicfg", [n]), ("before-another", "clicfg", [n, partner])]
+            if thorough or v in (1, 64513, 65536, 4294967295):
+                variants += [("alone+reserved", "fileresv", [n]), ("before-another+reserved", "cliresv", [n, partner])]
             for vname, kind, lst in variants:
-                via = "-n" if kind == "cli" else "config-file"
+                via = {"cli": "-n", "clicfg": "config-file", "cliresv": "-n -r", "file": "FileAnonymizer",
+                       "fileresv": "FileAnonymizer(reserved_words)"}[kind]
+                api = "main" if kind.startswith("cli") else "file"
                 lab = "n=%s list=%s via=%s salt=%s" % (nlabel(n), vname, via, slabel)
-                t = T("command-line", n=v, variant=vname, via=via, salt_class=slabel)
+                t = T("entry-points", n=v, variant=vname, via=via, salt_class=slabel)
                 t.seg(("child", "0"))
                 for k, m in enumerate(dict.fromkeys(lst)):
-                    t.new(1 + k, "file", salt, [m], "single-number library FileAnonymizer (reference) " + lab)
-                    t.line(1 + k, "router bgp " + m + "\n", "form=config single-number library FileAnonymizer %s api=file" % lab)
-                t._op(["new", 9, kind, salt, lst], "command line main() %s api=main" % lab)
-                t.line(9, text, "form=file(standalone+embedded) command line main() %s api=main" % lab)
+                    t._op(["new", 1 + k, "class", salt, [m], "file"], "single-number AsNumberAnonymizer (reference) %s api=class" % lab)
+                    t.anon(1 + k, [m], labels=["n=%s single-number AsNumberAnonymizer (reference) %s" % (nlabel(m), lab)])
+                t._op(["new", 9, kind, salt, lst], "entry point %s api=%s" % (lab, api))
+                t.line(9, text, "form=file(standalone+embedded) entry point %s api=%s" % (lab, api))
                 traces.append(t)
     return traces
 
@@ -820,7 +841,9 @@ def gen_oracle():
     mk("empty-list-refused-dontcare", None, new(1, [], outcome="ValueError"), line(1, "x 1 y", "anything"))
     mk("empty-list-live", (3, "UnlistedNumberChanged"), new(1, []), line(1, "x 1 y", "x 1 y"), line(1, "x 1 y", "x 2 y"))
     mk("line-exception", (2, "Exception"), new(1, L), line(1, "x 1 y", "", outcome="other:KeyError"))
-    mk("dontcare-asdot", None, new(1, L), teach, line(1, "as 1.12 x", "as 9.9 x"), line(1, "as 1.12 x", "", outcome="other:KeyError"))
+    mk("digit-beyond-dot-in-scope", (4, "ListedNumberNotReplaced"), new(1, L), teach, line(1, "as 1.12.7 x 3:12/4 12.5", "as 1.60179.7 x 3:60179/4 60179.5"),
+       line(1, "as 1.12 x", "as 1.12 x"))
+    mk("digit-beyond-dot-other-run", (3, "UnlistedNumberChanged"), new(1, L), teach, line(1, "as 1.12 x", "as 9.60179 x"))
     mk("dontcare-foreign-digit", None, new(1, L), teach, line(1, "\u0663" + "12 12\u00b2", "\u066312 12\u00b2"))
     mk("dontcare-leading-zeros", None, new(1, L), teach, line(1, "012 0012", "012 777"))
     mk("dot-at-end-in-scope", (3, "ListedNumberNotReplaced"), new(1, L), teach, line(1, "AS 12.", "AS 12."))
@@ -923,7 +946,7 @@ def mc_cfg(kind, maxlen=0, maxlist=1, numlen=1, invariants=("MImpliesR", "RDeter
 
 
 REPL_DEVS = ["SizePlusOne", "BoundaryLe", "ModNextBegin", "NoBlockOffset"]
-SCAN_DEVS = ["NoLookbehind", "NoLookahead", "AtomicAlternation", "FirstMatchOnly", "AvoidCollisions"]
+SCAN_DEVS = ["NoLookbehind", "NoLookahead", "AtomicAlternation", "FirstMatchOnly", "DigitBeyondPunct", "AvoidCollisions"]
 
 
 def start_models(thorough):
@@ -1004,7 +1027,7 @@ def run(pid, tier):
         "command line: main(['-i', file, '-o', file, '-s', salt, '-n', 'n1,n2'] or ['-c', cfg with as-numbers=n1,n2]) run in a fresh interpreter; "
         "a run that returns without writing the output file is the event outcome NoOutput (never accepted for a valid list)",
         "TLC/SANY and the text -> character-code projection are trusted; the md5 seam and the md5(salt+number) prediction only steer coverage (drift, never verdicts)",
-        "don't-care (accepted either way, not generated): spellings with leading zeros, digit '.' digit (AS-dot), non-ASCII numeric characters, "
+        "don't-care (accepted either way, not generated): spellings with leading zeros, non-ASCII numeric characters, "
         "list entries that are not canonical decimals in 0..4294967295, anonymize(n) for an unlisted n, an empty list refused with ValueError at construction; "
         "a replacement equal to the original number is accepted (the statement does not forbid it)",
     ]
